@@ -192,7 +192,21 @@ func vfRunOnce(t *testing.T, prop, tier, variant string, tape *vfTape, cryptoSee
 				case vfHarnessError:
 					res.Verdict, res.Err = "error", e.msg
 				default:
-					res.Verdict, res.Err = "error", fmt.Sprintf("harness panic: %v\n%s", p, debug.Stack())
+					st := string(debug.Stack())
+					if site := vfPanicSite(st); vfPanicInRepository(st) {
+						// the panic was raised inside repository code that the driver called directly (the session store's
+						// Save / Load / Clear with a real request, as a handler would): a crash of the product, not of the harness
+						func() {
+							defer func() { recover() }() // violate() ends the run by panicking; the run is over anyway
+							prop := w.panicProp
+							if prop == "" {
+								prop = "C19"
+							}
+							w.violate(prop, "panic", site, "repository code panicked when called directly by the driver: %v at %s", p, site)
+						}()
+					} else {
+						res.Verdict, res.Err = "error", fmt.Sprintf("harness panic: %v\n%s", p, st)
+					}
 				}
 			}
 			func() {
